@@ -25,10 +25,39 @@ def kind_of(row):
     return "%s/%s" % (binascii.unhexlify(m.group(1)).decode("latin1"), m.group(2))
 
 
+ROUTE_TB = TB_COMMON + ["the scripted performer stands for the network: a destination is identified by the URL host it is asked for"]
+
 PROPS = {
+    "C01": dict(
+        family="route",
+        proof_files=["Proofs/C01Proofs.v", "Proofs/RouteProofs.v"],
+        trusted_base=ROUTE_TB,
+        assumptions=ASSUME_COMMON + ["rulesets are those NewRule accepts (at most one wildcard, in last position); the request-URI after Go's URL round trip is an input computed with net/url alone",
+                                     "don't-care cells (property text silent): empty wildcard capture, exact pattern against a target with a query, host constraints against a Host value that is not reg-name[:port] or [literal][:port]"],
+        rule="pinned corner cases + a small-scope sweep (all ordered pairs over 32 rule shapes x 3 targets x 2 hosts, strided in quick) + random rulesets of 1-6 rules over a colliding vocabulary (paths /a /a/ /a/b /ab / with and without *, hosts, schemes, method lists, enabled flags, copy/proxy) x requests (method, Host with/without port incl. IPv6 and malformed values, X-Forwarded-Proto, path, query); non-trivial = at least one rule is enabled and the request is not rejected by Go's own server; distinct = distinct case encodings",
+        classify=kind_of,
+    ),
+    "C02": dict(
+        family="route",
+        proof_files=["Proofs/C02Proofs.v", "Proofs/C01Proofs.v"],
+        trusted_base=ROUTE_TB + ["Go's url.Parse/String round trip preserving an already-normalised escaped path (exercised by the adversarial stream, not proved)"],
+        assumptions=ASSUME_COMMON + ["request targets containing '#' and targets Go's ServeMux redirects by itself (// and dot segments) never reach rrrouter and are not generated",
+                                     "C02_authority_fixed speaks of destinations scheme://authority/rest whose scheme and authority are free of '$', '/', '?', '#' (and ':' in the scheme)"],
+        rule="wildcard rules over 10 destination shapes (with/without $1, ports, path prefixes, $1 in the middle, own query/fragment, userinfo) x targets built from adversarial segments (%2F %2f @evil a:b ;p %3F %23 {x} a|b quotes $1 * ^ backtick) x 16 query strings, optional copy rule and catch-all; non-trivial = the request reached a destination; distinct = distinct case encodings",
+        classify=kind_of,
+    ),
+    "C03": dict(
+        family="route",
+        proof_files=["Proofs/RouteProofs.v", "Proofs/ForwardProofs.v", "Proofs/C04Proofs.v", "Proofs/HeaderFacts.v"],
+        trusted_base=ROUTE_TB,
+        assumptions=ASSUME_COMMON + ["Content-Length / Transfer-Encoding of forwarded requests are Go's framing and are not compared",
+                                     "cache-enabled rules (Range and conditional headers managed by the cache) are covered by the cache properties, not here"],
+        rule="methods GET/POST/PUT/DELETE/OPTIONS x bodies (empty, 1 byte, text, all 256 byte values, 100 KiB) x header multisets drawn from a pool with repeated names, mixed case, every hop-by-hop name, Authorization, conditional and Range headers x rule flavours (copy target, retry_rule that matches or not, four hostheader modes, request_headers set/delete/add) x fault scripts (k connection failures then success with k up to the retry budget + 1, 4xx then fallback, copy failures); non-trivial = at least one delivery; distinct = distinct case encodings",
+        classify=kind_of,
+    ),
     "C04": dict(
         family="route",
-        proof_files=["Proofs/C04Proofs.v", "Proofs/HeaderFacts.v", "Spec/SpecC04.v"],
+        proof_files=["Proofs/C04Proofs.v", "Proofs/HeaderFacts.v", "Spec/SpecC04.v", "Proofs/RouteProofs.v", "Proofs/ForwardProofs.v"],
         trusted_base=TB_COMMON,
         assumptions=ASSUME_COMMON + ["the minted request id is any non-empty string; the originating IP is util.RequestIP as modelled"],
         rule="exhaustive product: secret lists {nil,[s1],[s1,s0]} x main internal/external x copy {none,external,internal} x secret header values (absent, valid, rotated, unknown, empty, two values either order, prefix/extension of a valid one) x request-id values x originating-ip values x 3 header-name casings, with method and client-IP headers drawn from the PRNG; a case is non-trivial when it carries at least one of the three headers or targets an internal rule; distinct = distinct case encodings",
